@@ -30,6 +30,14 @@ def U(x):
     return W.SCHEME + x
 
 
+def DL(x):
+    """download uri of a letter: the comment is not sent to the resource"""
+    return U(x).split("<<")[0]
+
+
+LETTERS = ("a", "b", "c", "a<<v2")
+
+
 def NAME(x):
     return W.name_of(U(x) if "://" not in x else x)
 
@@ -48,19 +56,36 @@ def repo_class(st, rel, name):
 
 
 # ----------------------------------------------------------------------------- symbolic world
+def crash_hook(interp, st, site):
+    """crash-point obligation (C19): right after this file-system step a new process may open the directory;
+    FileCache.__init__ adopts every pattern file, so each of them must be complete *now*"""
+    n = st.ghost.get("crash_n", 0) + 1
+    st.ghost["crash_n"] = n
+    F = st.deref(st.ghost["fs"])
+    ok = all(bool(st.deref(r).fields["complete"]) for p, r in F.items()
+             if is_pattern(p) and st.deref(r).fields["exists"])
+    interp.ctx.oblige(st, f"crash.step{n}.{site}", ok, {"crash_site": site})
+
+
 def sym_world(mk, cached=(), universe=("a", "b", "c"), kinds=None, allow=None, parallel=None, validate=True,
-              pp_raises=False, with_config_file=True, extra=None):
+              pp_raises=False, with_config_file=True, extra=None, crash=False):
     """-> {'self': FileCache object, 'w': ghost world}; kinds: letter -> remote behaviour (default ok)"""
     st = mk.st
     kinds = kinds or {}
     clock0 = mk.int("clock0")
     fs.init_ghost(st, dirs=[ROOT], clock=clock0)
+    if crash:
+        st.ghost["crash"] = crash_hook
     remote = st.deref(st.ghost["remote"])
     for u in universe:
-        rsize, rcid = mk.int(f"rsize_{u}"), mk.int(f"rcid_{u}")
-        remote[U(u)] = st.alloc(fs.Obj("remote", {"kind": kinds.get(u, "ok"), "size": rsize, "cid": rcid}), "remote")
-        fs.add_file(st, PATH(u), exists=u in cached, size=mk.int(f"fsize_{u}"), cid=mk.int(f"fcid_{u}"),
-                    mtime=mk.int(f"mtime_{u}"), atime=mk.int(f"atime_{u}"), complete=True)
+        tag = u.replace("<<", "_")
+        if DL(u) not in remote:
+            rsize, rcid = mk.int(f"rsize_{tag}"), mk.int(f"rcid_{tag}")
+            remote[DL(u)] = st.alloc(fs.Obj("remote", {"kind": kinds.get(u, "ok"), "size": rsize, "cid": rcid}), "remote")
+        fs.add_file(st, PATH(u), exists=u in cached, size=mk.int(f"fsize_{tag}"), cid=mk.int(f"fcid_{tag}"),
+                    mtime=mk.int(f"mtime_{tag}"), atime=mk.int(f"atime_{tag}"), complete=True)
+    for u in universe:
+        fs.add_file(st, PATH(u) + ".part", exists=False)
     for k, n in enumerate(FOREIGN):
         fs.add_file(st, ROOT + "/" + n, exists=True, size=mk.int(f"gsize_{k}"), cid=mk.int(f"gcid_{k}"),
                     mtime=mk.int(f"gmtime_{k}"), atime=mk.int(f"gatime_{k}"), complete=True)
@@ -136,7 +161,7 @@ def total(a):
 
 
 def letter_of(path):
-    for u in "abc":
+    for u in LETTERS:
         if path == PATH(u):
             return u
     return None
@@ -169,10 +194,10 @@ def inv_content(a, expect=None):
     for p in pattern_paths(a):
         u = letter_of(p)
         if F[p].exists and u is not None:
-            want = (expect or {}).get(u, R[U(u)].cid)
+            want = (expect or {}).get(u, R[DL(u)].cid)
             ok = And(ok, eq(F[p].cid, want))
-            if not (expect or {}).get(u):
-                ok = And(ok, eq(F[p].size, R[U(u)].size))
+            if u not in (expect or {}):
+                ok = And(ok, eq(F[p].size, R[DL(u)].size))
     return ok
 
 
